@@ -18,7 +18,7 @@ LEVEL_TEXT = ('in every crash state every payload still under files/ must still 
 LEVEL_NOTE = 'crash = process kill between two system calls; trusted: shim trace completeness for mutating calls'
 RULE = ('scenarios: entry kinds {file, deep dir, symlink->dir} x {1, 3 entries (+ a hand-written entry named n.trashinfo.bak for the purging commands)} x command {restore same volume, restore cross-volume, restore --overwrite onto an existing directory, empty, empty 0, empty -i (re-run with -i too), empty with two --trash-dir options, rm *} + two trashed links to one directory (+ restore --overwrite, multi-index '
         'restores in thorough); crash before each mutating syscall + after the last; non-trivial = crash state differs from initial state; distinct = (command, kind, count, operation at death)')
-CMDS = ['restore', 'restore-xvol', 'empty', 'empty0', 'rm-star', 'empty-i', 'restore-overwrite-dir', 'empty-2td', 'restore-td']
+CMDS = ['restore', 'restore-xvol', 'empty', 'empty0', 'rm-star', 'empty-i', 'restore-overwrite-dir', 'empty-2td', 'restore-td', 'rm-slash']
 T2 = '/home/u/T2'
 TD = scen.HOME_TRASH
 
@@ -104,6 +104,7 @@ def command(s, ctx):
             (['--trash-dir', '../home/u/.local/share/Trash'] if c == 'restore-td' else []) + ['/']          # (restore-td: the trash directory named explicitly, relative to /)
         return {'argv': argv, 'stdin': reply + '\n', 'cwd': '/', 'env': env}
     argv = {'empty': ['trash-empty'], 'empty0': ['trash-empty', '0'], 'rm-star': ['trash-rm', '*'], 'empty-i': ['trash-empty', '-i'],
+            'rm-slash': ['trash-rm', 'e0/'],          # a pattern with a trailing slash (matches no original name today): whatever it purges, a re-run must finish
             'empty-2td': ['trash-empty', '--trash-dir', TD, '--trash-dir', T2]}[c]
     return {'argv': argv, 'cwd': '/', 'env': env, 'now': '2024-05-06T07:08:09', 'stdin': 'y\n' if c == 'empty-i' else None}
 
@@ -158,7 +159,11 @@ def oracle(s, ctx, start, sb, r, at):
             r2 = sb.run(kw['argv'], cwd='/', env=env, now=kw.get('now'), stdin=kw.get('stdin'))
             fin = sb.snapshot()
             i2, p2 = world.pairs(fin, TD)
-            if i2 or p2:
+            if s['cmd'] == 'rm-slash':
+                half = sorted(set(n[:-len('.trashinfo')] for n in i2) ^ set(p2))
+                if half:
+                    problems.append('re-run-does-not-complete-the-purge:%s' % half[:3])
+            elif i2 or p2:
                 problems.append('re-run-does-not-complete-the-purge:%s' % (sorted(i2) + sorted(p2))[:3])
         if s['cmd'] == 'empty-2td':
             i3, p3 = world.pairs(fin, T2)
@@ -172,7 +177,7 @@ def oracle(s, ctx, start, sb, r, at):
         if s['cmd'] == 'empty-2td':
             i3, p3 = world.pairs(snap, T2)
             i2, p2 = dict(i2, **i3), set(p2) | set(p3)
-        if not s['cmd'].startswith('restore') and (i2 or p2):
+        if not s['cmd'].startswith('restore') and s['cmd'] != 'rm-slash' and (i2 or p2):
             problems.append('uncrashed-purge-incomplete')
     if problems:
         what = problems[0].split(':')[0]
